@@ -20,7 +20,7 @@ for pid in ALL:
         quick_cmd=f"./check {pid} --tier quick",
         thorough_cmd=f"./check {pid} --tier thorough",
         evidence_file=f"evidence/{pid}.json",
-        replay_cmd_template="cat {path}",
+        replay_cmd_template=f"./check {pid} --replay {{path}}",
         engine="lean4-model+correspondence",
         level_claimed=dict(category="proof", text=mt.LEVEL[pid], design_ref=f"DESIGN.md §6 {pid}"),
         level_note=mt.NOTE.get(pid, mt.NOTE_DEFAULT),
